@@ -9,6 +9,7 @@ import (
 	"sync"
 
 	"simlal/sim"
+	"simlal/sim/actors"
 
 	"github.com/q191201771/lal/pkg/base"
 	"github.com/q191201771/lal/pkg/hls"
@@ -111,6 +112,9 @@ type NotifyEvent struct {
 	SessionId string
 	Stream    string
 	Protocol  string
+	Remote    string
+	Url       string
+	UrlParam  string
 	Step      int
 	HasIn     bool
 	HasOut    bool
@@ -142,22 +146,22 @@ func (n *NotifyRecorder) OnRtmpConnect(info base.RtmpConnectInfo) {
 	n.add(NotifyEvent{Kind: "rtmp_connect", SessionId: info.SessionId})
 }
 func (n *NotifyRecorder) OnPubStart(info base.PubStartInfo) {
-	n.add(NotifyEvent{Kind: "pub_start", SessionId: info.SessionId, Stream: info.StreamName, Protocol: info.Protocol, HasIn: info.HasInSession, HasOut: info.HasOutSession})
+	n.add(NotifyEvent{Kind: "pub_start", SessionId: info.SessionId, Stream: info.StreamName, Protocol: info.Protocol, Remote: info.RemoteAddr, Url: info.Url, UrlParam: info.UrlParam, HasIn: info.HasInSession, HasOut: info.HasOutSession})
 }
 func (n *NotifyRecorder) OnPubStop(info base.PubStopInfo) {
-	n.add(NotifyEvent{Kind: "pub_stop", SessionId: info.SessionId, Stream: info.StreamName, Protocol: info.Protocol, HasIn: info.HasInSession, HasOut: info.HasOutSession})
+	n.add(NotifyEvent{Kind: "pub_stop", SessionId: info.SessionId, Stream: info.StreamName, Protocol: info.Protocol, Remote: info.RemoteAddr, Url: info.Url, UrlParam: info.UrlParam, HasIn: info.HasInSession, HasOut: info.HasOutSession})
 }
 func (n *NotifyRecorder) OnSubStart(info base.SubStartInfo) {
-	n.add(NotifyEvent{Kind: "sub_start", SessionId: info.SessionId, Stream: info.StreamName, Protocol: info.Protocol, HasIn: info.HasInSession, HasOut: info.HasOutSession})
+	n.add(NotifyEvent{Kind: "sub_start", SessionId: info.SessionId, Stream: info.StreamName, Protocol: info.Protocol, Remote: info.RemoteAddr, Url: info.Url, UrlParam: info.UrlParam, HasIn: info.HasInSession, HasOut: info.HasOutSession})
 }
 func (n *NotifyRecorder) OnSubStop(info base.SubStopInfo) {
-	n.add(NotifyEvent{Kind: "sub_stop", SessionId: info.SessionId, Stream: info.StreamName, Protocol: info.Protocol, HasIn: info.HasInSession, HasOut: info.HasOutSession})
+	n.add(NotifyEvent{Kind: "sub_stop", SessionId: info.SessionId, Stream: info.StreamName, Protocol: info.Protocol, Remote: info.RemoteAddr, Url: info.Url, UrlParam: info.UrlParam, HasIn: info.HasInSession, HasOut: info.HasOutSession})
 }
 func (n *NotifyRecorder) OnRelayPullStart(info base.PullStartInfo) {
-	n.add(NotifyEvent{Kind: "pull_start", SessionId: info.SessionId, Stream: info.StreamName, Protocol: info.Protocol, HasIn: info.HasInSession, HasOut: info.HasOutSession})
+	n.add(NotifyEvent{Kind: "pull_start", SessionId: info.SessionId, Stream: info.StreamName, Protocol: info.Protocol, Remote: info.RemoteAddr, Url: info.Url, UrlParam: info.UrlParam, HasIn: info.HasInSession, HasOut: info.HasOutSession})
 }
 func (n *NotifyRecorder) OnRelayPullStop(info base.PullStopInfo) {
-	n.add(NotifyEvent{Kind: "pull_stop", SessionId: info.SessionId, Stream: info.StreamName, Protocol: info.Protocol, HasIn: info.HasInSession, HasOut: info.HasOutSession})
+	n.add(NotifyEvent{Kind: "pull_stop", SessionId: info.SessionId, Stream: info.StreamName, Protocol: info.Protocol, Remote: info.RemoteAddr, Url: info.Url, UrlParam: info.UrlParam, HasIn: info.HasInSession, HasOut: info.HasOutSession})
 }
 
 // ---- world -------------------------------------------------------------------------------------------------------------
@@ -168,6 +172,7 @@ type World struct {
 	Conf      LalConf
 	Srv       logic.ILalServer
 	Notify    *NotifyRecorder
+	Hook      *HookRecorder
 	runErr    error
 	runDone   bool
 	observers []func()
@@ -183,6 +188,14 @@ func StartWorld(k *sim.Kernel, conf LalConf, mods ...logic.ModOption) *World {
 	}}, mods...)
 	hls.ZzSetFsl(k.FS.Fsl())
 	w.Srv = logic.NewLalServer(all...)
+	w.Hook = &HookRecorder{k: k}
+	w.Srv.WithOnHookSession(func(uniqueKey string, streamName string) logic.ICustomizeHookSessionContext {
+		w.Hook.mu.Lock()
+		defer w.Hook.mu.Unlock()
+		hs := &HookSession{UniqueKey: uniqueKey, Stream: streamName, StartStep: k.Step()}
+		w.Hook.Sessions = append(w.Hook.Sessions, hs)
+		return hookCtx{w.Hook, hs}
+	})
 	k.Go("server.RunLoop", func() {
 		w.runErr = w.Srv.RunLoop()
 		w.runDone = true
@@ -197,6 +210,109 @@ func StartWorld(k *sim.Kernel, conf LalConf, mods ...logic.ModOption) *World {
 		k.Abort(fmt.Sprintf("lal did not start listening: %v", w.runErr))
 	}
 	return w
+}
+
+// ---- stream hook recorder (existing seam: ILalServer.WithOnHookSession) ---------------------------------------------------
+
+type HookSession struct {
+	UniqueKey string
+	Stream    string
+	Msgs      int
+	Stops     int
+	StartStep int
+	StopSteps []int
+}
+
+type HookRecorder struct {
+	k        *sim.Kernel
+	mu       sync.Mutex
+	Sessions []*HookSession
+}
+
+type hookCtx struct {
+	r *HookRecorder
+	s *HookSession
+}
+
+func (h hookCtx) OnMsg(msg base.RtmpMsg) {
+	h.r.mu.Lock()
+	h.s.Msgs++
+	h.r.mu.Unlock()
+}
+func (h hookCtx) OnStop() {
+	h.r.mu.Lock()
+	h.s.Stops++
+	h.s.StopSteps = append(h.s.StopSteps, h.r.k.Step())
+	h.r.mu.Unlock()
+}
+
+func (r *HookRecorder) Snapshot() []HookSession {
+	r.mu.Lock()
+	defer r.mu.Unlock()
+	var out []HookSession
+	for _, s := range r.Sessions {
+		out = append(out, *s)
+	}
+	return out
+}
+
+// ---- HTTP API client -----------------------------------------------------------------------------------------------------
+
+type ApiResult struct {
+	Status int
+	Body   []byte
+	JSON   map[string]interface{}
+	Done   bool
+}
+
+func (r *ApiResult) ErrorCode() int {
+	if r.JSON == nil {
+		return -1
+	}
+	f, _ := r.JSON["error_code"].(float64)
+	return int(f)
+}
+
+// ApiStart issues an HTTP-API request without waiting; call Finish after settling.
+type ApiCall struct {
+	C *actors.HttpClient
+}
+
+func (w *World) ApiStart(name, path string, body []byte) *ApiCall {
+	mode := "get"
+	if body != nil {
+		mode = "post"
+	}
+	c := actors.NewHttpClient(w.K, name, mode, path)
+	c.Body = body
+	if !c.Connect(PortApi, 99) {
+		return &ApiCall{}
+	}
+	return &ApiCall{C: c}
+}
+
+func (a *ApiCall) Result() ApiResult {
+	var r ApiResult
+	if a.C == nil || !a.C.Resp.HeaderDone || !a.C.Resp.Complete {
+		return r
+	}
+	r.Done = true
+	r.Status = a.C.Resp.Status
+	r.Body = a.C.Resp.Body
+	_ = json.Unmarshal(r.Body, &r.JSON)
+	return r
+}
+
+// Api performs a request and settles.
+func (w *World) Api(name, path string, body []byte) ApiResult {
+	c := w.ApiStart(name, path, body)
+	w.K.Settle()
+	r := c.Result()
+	if c.C != nil {
+		c.C.Leave(false)
+		w.K.Settle()
+	}
+	return r
 }
 
 // Observe registers f to run at every quiescent point.
